@@ -113,3 +113,83 @@ func yamlInputOracle(ctx *common.Ctx) {
 	}
 	orc.Distinct = n
 }
+
+// longLiteralOracle: number literals of the input that are longer than any fixed scratch buffer
+// (65..400 bytes: integers, long fractions, long fractions with exponents) through the real
+// command in every output mode, alone and inside containers: the text written is the text read
+// (after removing white space and colour), so it reads back equal.
+func longLiteralOracle(ctx *common.Ctx) {
+	orc := ctx.NewOracle("long-literals", "number literals of 41..400 bytes as JSON input text through the real command (-c, default indent, --tab, --indent 7, -C, --yaml-output|--yaml-input for integers) at top level, in an array and as an object value: stdout minus white space and SGR sequences equals the input text; distinct = literals")
+	r := ctx.R.Fork(1212)
+	var lits []string
+	for _, n := range []int{41, 63, 64, 65, 66, 100, 127, 128, 129, 255, 256, 257, 400} {
+		digits := func(k int) string {
+			var sb strings.Builder
+			for i := 0; i < k; i++ {
+				d := byte('0' + r.Intn(10))
+				if i == 0 && d == '0' {
+					d = '3'
+				}
+				sb.WriteByte(d)
+			}
+			return sb.String()
+		}
+		lits = append(lits, digits(n), "-"+digits(n-1), digits(n/2)+"."+digits(n-n/2-1), "0."+digits(n-2), digits(n-6)+"e-"+fmt.Sprint(r.Range(10, 99)), "-"+digits(3)+"."+digits(n-9)+"E+"+fmt.Sprint(r.Range(10, 99)))
+	}
+	sgr := func(s string) string {
+		var sb strings.Builder
+		for i := 0; i < len(s); i++ {
+			if s[i] == 0x1b {
+				for i < len(s) && s[i] != 'm' {
+					i++
+				}
+				continue
+			}
+			if s[i] == ' ' || s[i] == '\n' || s[i] == '\t' {
+				continue
+			}
+			sb.WriteByte(s[i])
+		}
+		return sb.String()
+	}
+	modes := [][]string{{"-c"}, {}, {"--tab"}, {"--indent", "7"}, {"-C", "-c"}, {"-C"}}
+	for li, lit := range lits {
+		for ci, cx := range []string{"%s", "[%s,1]", "{\"a\":%s}", "[[%s],{\"k\":[%s]}]"} {
+			text := strings.ReplaceAll(cx, "%s", lit)
+			for mi, m := range modes {
+				if !ctx.Thorough && (li+ci+mi)%3 != 0 {
+					continue
+				}
+				out, _, code := cli.VerifRun(append(append([]string{}, m...), "."), []byte(text+"\n"))
+				orc.Cases++
+				if got := sgr(string(out)); code != 0 || got != text {
+					ctx.Violate(fmt.Sprintf("long-literal:%d:%d:%d", len(lit), ci, mi), fmt.Sprintf("a %d-byte number literal of the input is printed as %s by `gojq %s .` (status %d)", len(lit), clip(got), strings.Join(m, " "), code),
+						map[string]any{"input": text, "args": m, "observed": string(out), "cmd": "echo '" + text + "' | gojq " + strings.Join(m, " ") + " ."})
+				}
+			}
+		}
+	}
+	// integer literals of every size through --yaml-output and back through --yaml-input
+	ints := []string{"0", "-1", "9223372036854775807", "9223372036854775808", "-9223372036854775808", "-9223372036854775809", "18446744073709551616", "12345678901234567890123", "-100000000000000000000", "9007199254740993", "340282366920938463463374607431768211456"}
+	for _, l := range lits {
+		if !strings.ContainsAny(l, ".eE") {
+			ints = append(ints, l)
+		}
+	}
+	for _, lit := range ints {
+		for ci, cx := range []string{"%s", "[%s,1]", "{\"a\":%s}"} {
+			text := strings.ReplaceAll(cx, "%s", lit)
+			y, _, code := cli.VerifRun([]string{"--yaml-output", "."}, []byte(text+"\n"))
+			if code != 0 {
+				continue
+			}
+			back, _, code2 := cli.VerifRun([]string{"--yaml-input", "-c", "."}, y)
+			orc.Cases++
+			if got := strings.TrimSpace(string(back)); code2 != 0 || got != text {
+				ctx.Violate(fmt.Sprintf("yaml-integer-literal:%s:%d", lit, ci), fmt.Sprintf("the integer literal %s of the input written with --yaml-output (%q) reads back with --yaml-input as %s", clip(lit), clip(string(y)), clip(got)),
+					map[string]any{"input": text, "yaml": string(y), "observed": got, "cmd": "echo '" + text + "' | gojq --yaml-output . | gojq --yaml-input -c ."})
+			}
+		}
+	}
+	orc.Distinct = len(lits) + len(ints)
+}
